@@ -154,5 +154,20 @@ func WaiterScenario(seed int64) (fails []WaiterFail, line string) {
 			add("%s is not active although its queued Add1 was processed and nothing removes it", q.state)
 		}
 	}
+	// a late subscriber: the queue has drained, every tick handed out above has been processed - the
+	// last one included, with no mutation after it - so WhenQueue answers with a closed channel (this
+	// is what AddSync and friends wait on when the machine was faster than the caller)
+	if len(fails) == 0 && m.QueueLen() == 0 {
+		for _, q := range qs {
+			if uint64(q.res) > m.QueueTick() {
+				continue
+			}
+			select {
+			case <-m.WhenQueue(q.res):
+			case <-time.After(300 * time.Millisecond):
+				add("WhenQueue(%d) asked for after that mutation had been processed (queue tick %d, queue empty) returned a channel that stays open", q.res, m.QueueTick())
+			}
+		}
+	}
 	return
 }
